@@ -139,6 +139,12 @@ class CallGraph:
             for c in self.type_of(fn, expr.value, _depth + 1):
                 out += self.attr_types(c, expr.attr)
             return list(dict.fromkeys(out))
+        if isinstance(expr, ast.Subscript):
+            out = []
+            for c in self.type_of(fn, expr.value, _depth + 1):
+                for m in prog.lookup_method(c, "__getitem__"):
+                    out += self.classes_of_annotation(m.module, m.node.returns)
+            return list(dict.fromkeys(out))
         if isinstance(expr, ast.BoolOp):
             out = []
             for v in expr.values:
